@@ -14,7 +14,7 @@ VARIABLES l, tid, badl
 Ev == Log[l]
 SInit == PInit /\ l = 1 /\ tid = "" /\ badl = 0
 Act == \/ Ev.ev = "op" /\ POp(Ev.kind, Ev.tag, Ev.man, Ev.res, Ev.list)
-       \/ Ev.ev = "obs" /\ PObs(Ev.list, Ev.head, Ev.get)
+       \/ Ev.ev = "obs" /\ PObs(Ev.list, Ev.head, Ev.get, Ev.ft)
        \/ Ev.ev = "rawreg" /\ PRawReg(Ev.tags, Ev.xtags, Ev.mans)
        \/ Ev.ev = "rawidx" /\ PRawIdx(Ev.valid, Ev.ent, Ev.files)
        \/ Ev.ev = "note" /\ PNote
@@ -24,7 +24,7 @@ SNext ==
   /\ IF Ev.ev = "reset"
      THEN /\ Ev.mode = "seq"
           /\ bad # "" => PrintT(<<"REJECT", tid, badl, bad>>)
-          /\ PReset(Ev.mode, Ev.backend, Ev.alist, Ev.adel, Ev.tags0, Ev.amb0, Ev.mans0)
+          /\ PReset(Ev.mode, Ev.backend, Ev.alist, Ev.adel, Ev.tags0, Ev.amb0, Ev.mans0, Ev.fallback, Ev.withman, Ev.subj)
           /\ tid' = Ev.trace /\ badl' = 0
      ELSE IF bad # "" THEN UNCHANGED <<pvars, tid, badl>>
      ELSE /\ Act
